@@ -233,7 +233,9 @@ class LogRecorder:
         refilled = not np.array_equal(old, sk.rand_nums)
         fresh_ok = True
         post_draws = []
-        if refilled:
+        if refilled or ptr1 < ptr0:
+            # the pointer wrapped: the draws consumed after the wrap are the first ptr1 entries of
+            # the batch now in place (a batch that did not change is reported as not refilled)
             new = sk.rand_nums
             fresh_ok = bool(np.all(new >= 0.0) and np.all(new < 1.0) and np.all(new != old))
             post_draws = [float(x) for x in new[0:ptr1]]
@@ -264,7 +266,7 @@ class LogRecorder:
         ptr1 = int(sk.rand_ptr)
         refilled = not np.array_equal(old, sk.rand_nums)
         fresh_ok, post = True, []
-        if refilled:
+        if refilled or ptr1 < ptr0:
             new = sk.rand_nums
             fresh_ok = bool(np.all(new >= 0.0) and np.all(new < 1.0) and np.all(new != old))
             post = [float(x) for x in new[0:ptr1]]
